@@ -414,6 +414,15 @@ def sys_check(h, heads, rws, before, plan, inv_before, added_k, phases, extra, g
             alt = val(o["opts"], "add_formula", "") if o["key"] == "component" else ""
             if alt:
                 kin_parts["\0" + o["args"][0]] = [(formula_of(alt, phases, extra), Fraction(1))]
+    skip = set()
+    if "solid_solutions" in plan["use"]:
+        # SYS() counts a solid solution only while it is flagged present (ss_in): elements of its components cannot be
+        # compared at intermediate steps (the final state is judged on the dumps)
+        e = before.get(("SOLID_SOLUTIONS_RAW", plan["use"]["solid_solutions"]))
+        for ss in (e["opts"] if e else []):
+            for o in ss["opts"] if ss["key"] == "solid_solution" else []:
+                if o["key"] == "component":
+                    skip |= set(_formula_elements(formula_of(o["args"][0], phases, extra)))
     for k, row in enumerate(rws):
         add = added_k[k] if k < len(added_k) else {}
         kin_inv = {}
@@ -435,7 +444,7 @@ def sys_check(h, heads, rws, before, plan, inv_before, added_k, phases, extra, g
             continue
         for el in h["elements"]:
             c = col.get("SYS_" + el)
-            if c is None or row[c] is None:
+            if c is None or row[c] is None or el in skip:
                 continue
             got = row[c] + kin_inv.get(el, 0.0)
             if dlw and el in ("H", "O"):
